@@ -34,13 +34,17 @@ func (i *IRCServer) cmdServerSvsnick(s *Session, reply *Replyctx, msg *irc.Messa
 	oldPrefix := session.ircPrefix
 	oldNick := NickToLower(msg.Params[0])
 	session.Nick = msg.Params[1]
-	i.nicks[NickToLower(session.Nick)] = session
-	delete(i.nicks, oldNick)
-	for _, c := range i.channels {
-		if modes, ok := c.nicks[oldNick]; ok {
-			c.nicks[NickToLower(session.Nick)] = modes
+	// When only the capitalization changes, the lower-cased nickname under
+	// which the session is filed stays the same: it must not be deleted.
+	if newNick := NickToLower(session.Nick); newNick != oldNick {
+		i.nicks[newNick] = session
+		delete(i.nicks, oldNick)
+		for _, c := range i.channels {
+			if modes, ok := c.nicks[oldNick]; ok {
+				c.nicks[newNick] = modes
+			}
+			delete(c.nicks, oldNick)
 		}
-		delete(c.nicks, oldNick)
 	}
 	session.updateIrcPrefix()
 	i.sendServices(reply,
